@@ -35,10 +35,24 @@ var initWhitelist = map[string]bool{
 	"net": false,
 }
 
+const goRoot = "/opt/veriftools/go1.26.8"
+
+// goEnv: environment for go subprocesses (go list, go test): the newer Go
+// release pre-installed beside the default one, offline.
 func goEnv() []string {
-	env := os.Environ()
-	env = append(env, "GOFLAGS=-mod=mod", "GOPROXY=off", "GOSUMDB=off", "GOTOOLCHAIN=local")
+	var env []string
+	for _, e := range os.Environ() {
+		if strings.HasPrefix(e, "PATH=") || strings.HasPrefix(e, "GOFLAGS=") || strings.HasPrefix(e, "GOTOOLCHAIN=") || strings.HasPrefix(e, "GOPROXY=") || strings.HasPrefix(e, "GOSUMDB=") {
+			continue
+		}
+		env = append(env, e)
+	}
+	env = append(env, "PATH="+goRoot+"/bin:"+os.Getenv("PATH"), "GOFLAGS=-mod=mod", "GOPROXY=off", "GOSUMDB=off", "GOTOOLCHAIN=local")
 	return env
+}
+
+func init() {
+	os.Setenv("PATH", goRoot+"/bin:"+os.Getenv("PATH"))
 }
 
 // buildOverlay maps harness sources into the repository's package directories.
